@@ -12,6 +12,7 @@ CLAIMED = {
     "C04": ("4 (C04)", "save / load / cross-read / cross-write histories over a simulated file system (SimFS) across 7 formats, interleaved attribute-adding queries, export switches flipped, benign lexical perturbations of independently written files; oracle: snapshot at save time + independent reference codecs"),
     "C05": ("4 (C05)", "stateful histories on containers with twin sparse/dense attributes, rejected operations injected anywhere; oracle RefAttr + sparse-vs-dense lock-step"),
     "C06": ("4 (C06)", "pool of meshes from every producer, clients interleaving copy/merge/transform/edit calls, every mesh compared with an independent float64 model after every call"),
+    "C11": ("4 (C11)", "tree construction under a simulator-owned PRNG (per-call reseed or shared stream with a noise client; fair-adversarial forced pivots) and a deterministic step budget on sys.monitoring (bounded liveness), then query clients sharing the tree; oracle: brute-force k-NN / radius and the leaf partition"),
     "C12": ("4 (C12)", "pools of caller-owned arrays and of boxes built on them; box / primitive clients interleaved with an environment client that owns numpy's error mode and a rejector issuing calls that must raise; oracles: RefAABB, exact-rational laws, bitwise snapshots of every caller array, np.geterr()"),
     "C13": ("4 (C13)", "editing-block histories (cold or warm caches, open block, seeded operation sequence, close, observers on result and passed-in object, second block); oracles: documented counts, topology, area/volume, vertex placement, RefSurface/RefVolume on the result"),
     "C19": ("4 (C19)", "sampler clients drawing from the simulator-owned global PRNG interleaved with a noise client (arbitrary stream positions), Bezier client and rejector; oracles: domain containment, exact counts, seeded chi-square on shares at p=1e-12, Bernstein form"),
@@ -35,7 +36,6 @@ PENDING = {  # claimed by the design, check not built yet
     "C03": "simulation designed (DESIGN.md section 4) but the check is not built yet in this revision",
     "C04": "simulation designed (DESIGN.md section 4) but the check is not built yet in this revision",
     "C06": "simulation designed (DESIGN.md section 4) but the check is not built yet in this revision",
-    "C11": "simulation designed (DESIGN.md section 4) but the check is not built yet in this revision",
     "C12": "simulation designed (DESIGN.md section 4) but the check is not built yet in this revision",
     "C13": "simulation designed (DESIGN.md section 4) but the check is not built yet in this revision",
     "C19": "simulation designed (DESIGN.md section 4) but the check is not built yet in this revision",
